@@ -24,6 +24,8 @@ type ChainCfg struct {
 	ExtraPerStep int
 	Thresholds   []int
 	Alter        string // C01 alteration ("" = none)
+	Prime        bool   // C01: verify the authentic layout first, in the same process
+	ShortPct     int    // chance (percent) that a step gets one honest link too few (default 8)
 	Expiry       string // "" = far future
 	Inspections  []string
 	DirEdit      string // "", "add", "remove", "modify"
@@ -227,7 +229,11 @@ func (g *chainGen) buildLevel(depth int, initial Files, signers []*TestKey, name
 		if honest > nf {
 			honest = nf
 		}
-		if rng.Chance(8) && honest > 0 {
+		shortPct := 8
+		if cfg.ShortPct > 0 {
+			shortPct = cfg.ShortPct
+		}
+		if rng.Chance(shortPct) && honest > 0 {
 			honest-- // one too few
 			lv.Feat = append(lv.Feat, "short")
 		}
@@ -244,9 +250,16 @@ func (g *chainGen) buildLevel(depth int, initial Files, signers []*TestKey, name
 		for k := 0; k < honest; k++ {
 			f := fs[k]
 			p := prods
+			algTweak := 0
 			if cfg.Differ && k == honest-1 && honest > 1 && rng.Chance(60) {
 				p = prods.copyF()
-				switch rng.Intn(3) {
+				switch rng.Intn(5) {
+				case 3:
+					// same paths and digests, but one artifact carries one MORE hash algorithm
+					algTweak = 1 + rng.Intn(2)
+				case 4:
+					// … or is recorded under another algorithm only
+					algTweak = 3
 				case 0:
 					p["extra.file"] = "x"
 				case 1:
@@ -275,7 +288,7 @@ func (g *chainGen) buildLevel(depth int, initial Files, signers []*TestKey, name
 				lv.Feat = append(lv.Feat, sub.Feat...)
 				continue
 			}
-			put(shortID(f.ID), g.wrapSign(linkTree(name, mats, p, cmd), cfg.LinkDSSE, []sigSpec{{key: f}}))
+			put(shortID(f.ID), g.wrapSign(tweakAlg(linkTree(name, mats, p, cmd), algTweak), cfg.LinkDSSE, []sigSpec{{key: f}}))
 		}
 		extra := cfg.ExtraPerStep
 		if certNeeded {
@@ -314,6 +327,18 @@ func (g *chainGen) buildLevel(depth int, initial Files, signers []*TestKey, name
 					specs = []sigSpec{{key: victim}, {key: foreign}, {key: other}}
 				}
 				put(shortID(victim.ID), g.wrapSign(linkTree(name, mats, prods, cmd), cfg.LinkDSSE, specs))
+			case "keyid-variant":
+				// a functionary that was already counted, again, under a key id that differs only in
+				// letter case (file infix and first signature entry); its real signature follows
+				if honest == 0 {
+					continue
+				}
+				v := fs[rng.Intn(honest)]
+				up := strings.ToUpper(v.ID)
+				if shortID(up) == shortID(v.ID) {
+					continue
+				}
+				put(shortID(up), g.wrapSign(linkTree(name, mats, prods, cmd), cfg.LinkDSSE, []sigSpec{{key: v, keyidOvr: up}, {key: v}}))
 			case "dup-infix":
 				put("deadbeef", g.wrapSign(linkTree(name, mats, oddProds, cmd), cfg.LinkDSSE, []sigSpec{{key: victim}}))
 			case "wrong-name-len":
@@ -618,6 +643,17 @@ func readMarker(marker string) []any {
 }
 
 func verifyImpl(a map[string]any) any {
+	if p, ok := a["prime"].(map[string]any); ok {
+		b := map[string]any{}
+		for k, v := range a {
+			b[k] = v
+		}
+		delete(b, "prime")
+		for k, v := range p {
+			b[k] = v
+		}
+		verifyImpl(b)
+	}
 	layoutPath, linkDir, prodDir, marker := materialise(a)
 	md, err := intoto.LoadMetadata(layoutPath)
 	if err != nil {
@@ -678,6 +714,8 @@ func genChainCase(r *Runner, rng *Rng, cfg *ChainCfg) Case {
 		w.addKeyMaterial(k)
 	}
 	feat := append([]string{}, lv.Feat...)
+	origLayoutText := WriteJ(layoutFile, nil, false)
+	origKeys := append([]any{}, vkeys...)
 	// C01 alterations
 	switch cfg.Alter {
 	case "":
@@ -802,6 +840,12 @@ func genChainCase(r *Runner, rng *Rng, cfg *ChainCfg) Case {
 		"rundir": cfg.RunDir, "marker": cfg.Marker, "fs": fs.contents(), "fs_digests": fs.digests(), "line_norm": false,
 		"world": w.JSON(), "now_ns": int64(0),
 	}
+	if cfg.Alter != "" && cfg.Prime {
+		// the AUTHENTIC layout is verified first in the same process (result not compared here);
+		// the verdict on the altered one must not depend on that history (seeded change c01-sig-cache)
+		args["prime"] = map[string]any{"layout_text": origLayoutText, "keys": origKeys}
+		feat = append(feat, "primed")
+	}
 	delete(lv.Dir, "caller_inters")
 	if args["caller_inters"] == nil {
 		args["caller_inters"] = []any{}
@@ -898,4 +942,29 @@ func alterDSSEPayload(rng *Rng, env JObj) JObj {
 	c := present[rng.Intn(len(present))]
 	text = strings.Replace(text, c[0], c[1], 1)
 	return env.Set("payload", base64StdEnc(text))
+}
+
+// tweakAlg changes the ALGORITHM SET of the first artifact of a link tree: mode 1 adds sha512 to
+// the first product, mode 2 to the first material, mode 3 replaces the first product's sha256 by
+// sha512 (same paths everywhere, no sha256 digest contradicts another)
+func tweakAlg(tree JObj, mode int) JObj {
+	if mode == 0 {
+		return tree
+	}
+	field := "products"
+	if mode == 2 {
+		field = "materials"
+	}
+	arts, _ := tree.Get(field).(JObj)
+	if len(arts) == 0 {
+		return tree
+	}
+	na := append(JObj{}, arts...)
+	h, _ := na[0].V.(JObj)
+	if mode == 3 {
+		na[0] = JKV{na[0].K, O("sha512", "cc33")}
+	} else {
+		na[0] = JKV{na[0].K, append(append(JObj{}, h...), JKV{"sha512", "cc33"})}
+	}
+	return tree.Set(field, na)
 }
